@@ -733,6 +733,10 @@ impl SendBuf {
     // 通过传输层接收到的对方的ack帧，确认某些包已经被接收到，这些包携带的数据即被确认。
     // ack只能确认Flighting/Lost状态的区间；如果确认的是Lost区间，意味着之前的判定丢包是错误的。
     pub fn on_data_acked(&mut self, range: &Range<u64>) {
+        // An empty range (a FIN-only STREAM frame) carries no data: nothing to acknowledge.
+        if range.is_empty() {
+            return;
+        }
         self.state.ack_rcvd(range);
         // 对于头部连续确认接收到的，还要前进，以免浪费空间
         let min_unrecved_pos = self.state.shift();
@@ -761,6 +765,10 @@ impl SendBuf {
     // 通过传输层收到的ack帧，判定有些数据包丢失，因为它之后的数据包都被确认了，
     // 或者距离发送该段数据之后相当长一段时间都没收到它的确认。
     pub fn may_loss_data(&mut self, range: &Range<u64>) {
+        // An empty range (a FIN-only STREAM frame) carries no data: nothing can be lost.
+        if range.is_empty() {
+            return;
+        }
         self.state.may_loss(range);
     }
 
